@@ -319,6 +319,9 @@ func ruleAcceptLoops(c *Ctx, rid string) {
 		badExit := 0
 		for _, b := range al.Loop.sortedBlocks() {
 			for idx, s := range b.Succs {
+				if deadEdge(b, idx) {
+					continue
+				}
 				if al.Loop.Blocks[s] {
 					continue
 				}
